@@ -24,6 +24,17 @@ redirected call sites to the harness (it records them in the evidence).
 
 Prints the JSON object {repo path: replacement path} that tools/mkoverlay.py merges into the overlay.
 
+Second mode, used by /verif/harness/cmd/c04/prebuild.sh:
+
+    gen_c04_vfs.py --fix-overlay <overlay.json> /repo <gendir>
+
+tools/mkoverlay.py applies VERIF_EXTRA_OVERLAY (the mutant files of a detection demo) AFTER the generators, so
+a mutant of libs/common/os.go or types/priv_validator.go would replace the instrumented copy by the raw mutant
+and the signer's I/O would go to the real disk. This mode looks at what the finished overlay maps the listed
+repo files to; where that is not this generator's own output it instruments THAT file (same rules, same loud
+failures; output named by content hash so that concurrent builds of other checks never see it) and rewrites
+the overlay entry (and the `!verif` twin) in place.
+
 FAILS LOUDLY (exit 3, message on stderr, nothing printed on stdout) if
   * a listed file or function is missing, or the function body cannot be delimited;
   * a listed function uses an `os.` / `ioutil.` identifier that is neither redirectable nor known to be free of
@@ -188,11 +199,11 @@ def import_names(src, segs):
     return names
 
 
-def instrument(repo, t):
+def instrument(repo, t, source=None):
     path = os.path.join(repo, t["src"])
-    if not os.path.isfile(path):
-        raise GenError("%s does not exist" % path)
-    src = open(path, encoding="utf-8").read()
+    if not os.path.isfile(source or path):
+        raise GenError("%s does not exist" % (source or path))
+    src = open(source or path, encoding="utf-8").read()
     m = re.search(r"(?m)^package\s+(\w+)", src)
     if not m:
         raise GenError("%s: no package clause" % path)
@@ -265,7 +276,7 @@ def instrument(repo, t):
         if not out.endswith("\n"):
             out += "\n"
         out += "\n" + trailer
-    line = "//line %s:1\n" % path
+    line = "//line %s:1\n" % (source or path)
     inst = "//go:build verif\n\n" + line + out
     orig = "//go:build !verif\n\n" + line + src
     return path, inst, orig, sorted(redirects)
@@ -283,7 +294,44 @@ def write_if_changed(path, text):
     os.replace(tmp, path)
 
 
+def fix_overlay(ov_path, repo, gen):
+    import hashlib
+    ov = json.load(open(ov_path))
+    rep = ov["Replace"]
+    changed = False
+    for t in TARGETS:
+        path = os.path.join(repo, t["src"])
+        own = os.path.join(gen, "c04_%s.go" % t["tag"])
+        cur = rep.get(path)
+        if cur in (None, own):
+            continue
+        if cur == "":
+            raise GenError("overlay deletes %s" % path)
+        _, inst, orig, redirects = instrument(repo, t, source=cur)
+        h = hashlib.sha256(inst.encode()).hexdigest()[:12]
+        a = os.path.join(gen, "c04_%s.x%s.go" % (t["tag"], h))
+        b = os.path.join(gen, "c04_orig_%s.x%s.go" % (t["tag"], h))
+        write_if_changed(a, inst)
+        write_if_changed(b, orig)
+        rep[path] = a
+        rep[os.path.join(os.path.dirname(path), "zz_verif_c04_orig_%s.go" % t["tag"])] = b
+        sys.stderr.write("gen_c04_vfs.py: instrumented %s (extra overlay) for %s: %s\n" % (cur, t["src"], ", ".join(redirects)))
+        changed = True
+    if changed:
+        tmp = "%s.%d.tmp" % (ov_path, os.getpid())
+        json.dump(ov, open(tmp, "w"), indent=1, sort_keys=True)
+        os.replace(tmp, ov_path)
+
+
 def main():
+    if len(sys.argv) == 5 and sys.argv[1] == "--fix-overlay":
+        try:
+            os.makedirs(sys.argv[4], exist_ok=True)
+            fix_overlay(sys.argv[2], os.path.abspath(sys.argv[3]), os.path.abspath(sys.argv[4]))
+        except GenError as e:
+            sys.stderr.write("gen_c04_vfs.py: ERROR: %s\n" % e)
+            return 3
+        return 0
     if len(sys.argv) != 3:
         sys.stderr.write("usage: gen_c04_vfs.py <repo> <gendir>\n")
         return 2
